@@ -569,6 +569,7 @@ func checkC19(r *mon.Run) {
 	for _, s := range rep.Samples {
 		r.Sample(s)
 	}
+	c19Cold(r, raceBin)
 	r.Floor("sequential_orders", 120*8)
 	r.Floor("concurrent_rounds", int64(rounds*8))
 	r.Floor("object_kinds_with_overlap", 8)
